@@ -399,6 +399,12 @@ def params(draw, name):
             p["k1"] = None
         if draw(st.integers(0, 3)) == 0:
             p["k2"] = None
+    if name == "VM":
+        z = draw(st.integers(0, 9))
+        if z == 0:
+            p["k1"] = draw(st.sampled_from([0, 0.0, 1, -1]))
+        elif z == 1:
+            p["k2"] = draw(st.sampled_from([0, 0.0, 1, -1]))
     if name == "CA-simple":
         p["op"] = draw(st.sampled_from(["+", "-", "*", "/", "^"]))
         if p["op"] == "^":
